@@ -71,7 +71,7 @@ def rand_graph(rng, pcmci=False):
         if rng.random() < 0.85:
             d["lag"] = int(rng.integers(0, 5))
         if rng.random() < 0.8:
-            d["cmi"] = float(rng.integers(0, 64)) / 16
+            d["cmi"] = float(rng.integers(-32, 64)) / 16          # raw kNN / KDE estimates are negative now and then; the export copies whatever the edge carries
         if rng.random() < 0.8:
             d["p_value"] = float(rng.integers(0, 17)) / 16
         if pcmci:
